@@ -18,7 +18,14 @@ SPEC = dict(
                 "The model is tied to the code on every run: ~20k boundary-rich cases (axis records, segment maps, assembled stores incl. "
                 "malformed ones, raw rows, index maps, and ~400 small builder runs compared byte-for-byte at the decoded level) are evaluated by "
                 "both the real crates and the model (vm_compute). Larger stores (thousands of rows; > 65 535 rows in the thorough tier) and "
-                "HVAR metrics through skrifa GlyphMetrics are checked by the implementation-only oracle (retrieval identity, exact rational tent reference)."),
+                "HVAR metrics through skrifa GlyphMetrics are checked by the implementation-only oracle (retrieval identity, exact rational tent reference). "
+                "Deepening round: avar_monotone_if_map_monotone (SegmentMaps::apply with the implemented mul_div rounding is monotone for every monotone map, "
+                "and so is the whole user->F2Dot14 pipeline); compute_delta_total (over the RAW subtable bytes, any wordDeltaCount incl. beyond regionIndexCount, "
+                "LONG_WORDS or not: never a panic, never an out-of-range index) with delta_set_layout (fixed stride, wide cells first, padding) and compute_delta_raw_spec; "
+                "the metrics glue (advance_spec / lsb_spec / hvar_index_clamps: hmtx last-long-metric rule, lsb array, implicit index without a map, index clamped to the last entry, "
+                "truncated delta, scaling) modelled and tied by correspondence on every variable test font with HVAR through skrifa GlyphMetrics; "
+                "the 0xFFFF split rule (exactly MAX_ITEMS rows stay one subtable, no NULL / oversized subtable) proved and tied on stores with exactly 65 535 / 65 536 rows; "
+                "ivs_retrieval_every_schedule (the retrieval identity for every merge schedule of the optimiser from Encoder::new's grouping) and build_with_total (no region_map panic)."),
     level_note=("Trusted: Coq kernel; the hand-written model coq/C11/Model.v (its agreement with the crates is checked on every run, not proved); "
                 "the harness generators. The optimiser's cost heuristic (which encodings get merged) is deliberately not modelled: the retrieval theorem "
                 "quantifies over all groupings instead, and the correspondence check feeds the grouping the real builder chose into the model. "
@@ -30,12 +37,14 @@ SPEC = dict(
               "read-fonts/src/tables/variations.rs: VariationRegion::compute_scalar, ItemVariationStore::compute_delta, ItemVariationData::{delta_set, delta_row_len} (ItemDeltas), DeltaSetIndexMap::get, advance_delta",
               "write-fonts/src/tables/variations.rs: DeltaSetIndexMap::{get_entry_format, pack_map_data}",
               "write-fonts/src/tables/variations/ivs_builder.rs: add_deltas, canonical_index_for_region, DeltaSetStorage::add (Direct/Deduplicated), ColumnBits::for_val, RowShape::{reuse, merge, can_cover, region_map}, RegionMap::{indices, word_delta_count, encode_raw_delta_values}, Encoding::{encode, merge_with, split_off_back}, Encoder::{new, encode}, optimize as an arbitrary merge schedule, build_unoptimized, make_region_list, VariationIndexRemapping",
-              "skrifa/src/metrics.rs: GlyphMetrics::advance_width delta application and FixedScaleFactor::apply for Size::unscaled()"],
+              "skrifa/src/metrics.rs: GlyphMetrics::{advance_width, left_side_bearing} (hmtx base incl. default advance and lsb array, HVAR delta, truncation, checked add), FixedScaleFactor::apply; skrifa/src/instance.rs: Size::fixed_linear_scale, LocationRef::effective_coords",
+              "read-fonts/src/tables/hvar.rs + variations.rs: advance_width_delta/lsb_delta via advance_delta / item_delta (implicit index, DeltaSetIndexMap clamp, Fixed::from_i32)",
+              "read-fonts ItemVariationStore::compute_delta composed with ItemVariationData::delta_set over the raw bytes (compute_delta_raw)"],
     not_covered=["Encoder::optimize's cost heuristic and fonttools-compatible sort orders (compute_gain, ord_matching_fonttools, DeltaSet::cmp): abstracted as an arbitrary grouping/order; the real choice is fed into the model by the correspondence check",
                  "byte-level table framing (offsets, headers) of ItemVariationStore / fvar / avar / HVAR: exercised through the real writers and readers, not modelled (C01/C04 cover table layout)",
                  "DeltaSetIndexMap::pack_map_data picks a sufficient entry format: correspondence + oracle only (the unpack/pack inverse is proved for every format)",
                  "avar version 2, compute_float_delta / compute_scalar_f32, gvar phantom-point fallback and scaled sizes in skrifa metrics: oracle only (scaled size 62.5 ppem) or not covered",
-                 "avar_monotone_if_map_monotone: checked by the oracle on valid maps, no Coq theorem",
+                 "metrics for fonts that have gvar but no HVAR (phantom-point fallback), f32 conversion of raw values beyond 24 significant bits: oracle / not compared",
                  "more than 65 535 canonical regions (u16 index wrap in add_deltas) is outside the stated domain"],
     assumptions=["Rust integer semantics as in coq/Lib/RustInt.v; Fixed kernels as in coq/C15/Model.v (proved specs from C15.Proofs are reused)",
                  "delta sets are sparse maps (each region at most once per set) and at most 65 535 distinct regions are added"],
